@@ -37,6 +37,8 @@ def canon(line):
                 v = ','.join(sorted(v.split(','), key=lambda x: (len(x), x))) if v else ''
             res.append(k + '=' + v)
         return ' '.join(res)
+    if w[0] == 'paths' and len(w) > 2:
+        return ' '.join(w[:2] + ['|'.join(sorted(w[2].split('|')))])
     return line
 
 def diff(impl_lines, model_lines):
